@@ -2,7 +2,7 @@
 //!
 //! Frame obligation for each operation: no blocking raw call is issued and the hold state of every
 //! lock afterwards equals the state before (a transient try+release pair on a *free* lock is allowed:
-//! counters net to zero, C05_release_matches_hold guards the release).
+//! counters net to zero, U_release_matches_hold guards the release).
 use core::fmt::Write;
 
 use super::col::*;
@@ -54,4 +54,215 @@ fn c17_q_mutex_debug() {
 	kani::cover!(k == 0, "free");
 	kani::cover!(k == 1, "held_by_other");
 	kani::cover!(k == 2, "held_by_caller");
+}}
+
+fn any_world_rw(s: &VState) -> u8 {
+	// 0 free, 1 other shared, 2 other exclusive, 3 caller shared, 4 caller exclusive, 5 caller and other shared
+	let k: u8 = kani::any();
+	kani::assume(k < 6);
+	match k {
+		1 => s.other.set(2),
+		2 => s.other.set(EXCL),
+		3 => {
+			s.mine.set(1);
+			s.acq_s.set(1);
+			w().held += 1;
+		}
+		4 => {
+			s.mine.set(EXCL);
+			s.acq_x.set(1);
+			w().held += 1;
+		}
+		5 => {
+			s.other.set(1);
+			s.mine.set(1);
+			s.acq_s.set(1);
+			w().held += 1;
+		}
+		_ => {}
+	}
+	k
+}
+
+/// net effect of transient holds is zero: acquisitions - releases equals what the caller held before
+fn net_unchanged(s: &VState, pre: Snap) -> bool {
+	let x = s.acq_x.get() - s.rel_x.get();
+	let sh = s.acq_s.get() - s.rel_s.get();
+	(pre.mine == EXCL) == (x == 1) && (pre.mine != EXCL || sh == 0) && (pre.mine == EXCL || sh == pre.mine) && (pre.mine == EXCL || x == 0)
+}
+
+vharness! {
+#[kani::unwind(4)]
+fn c17_q_rwlock_debug() {
+	let m = new_rw(0, 5);
+	let s = rraw(&m);
+	let k = any_world_rw(s);
+	let pre = s.snap();
+	let held = w().held;
+	let mut sink = Sink(0);
+	let _ = core::fmt::write(&mut sink, format_args!("{:?}", m));
+	assert!(!w().blocking_issued, "C17_debug_never_waits");
+	assert!(s.snap() == pre, "C17_debug_leaves_hold_state_unchanged");
+	assert!(w().held == held, "C17_debug_leaves_hold_count_unchanged");
+	assert!(net_unchanged(s, pre), "C17_debug_transient_holds_net_to_zero");
+	kani::cover!(k == 0, "free");
+	kani::cover!(k == 2, "held_by_other");
+	kani::cover!(k == 4, "held_by_caller");
+	kani::cover!(k == 5, "shared_by_both");
+}}
+
+/// frame check over a pair (Mutex, RwLock) for an operation `op` that must not touch any lock
+fn frame2(m: &M, r: &RW, allow_transient: bool, op: impl FnOnce()) {
+	let (sm, sr) = (mraw(m), rraw(r));
+	let km = any_world_mutex(sm);
+	let kr = any_world_rw(sr);
+	let (pm, pr) = (sm.snap(), sr.snap());
+	let held = w().held;
+	op();
+	assert!(!w().blocking_issued, "C17_operation_never_waits");
+	assert!(sm.snap() == pm && sr.snap() == pr, "C17_operation_leaves_hold_state_unchanged");
+	assert!(w().held == held, "C17_operation_leaves_hold_count_unchanged");
+	assert!(net_unchanged(sm, pm) && net_unchanged(sr, pr), "C17_transient_holds_net_to_zero");
+	if !allow_transient {
+		assert!(w().ops == 0, "C17_operation_issues_no_raw_lock_operation");
+	}
+	kani::cover!(km == 2 && kr == 4, "held_by_caller");
+	kani::cover!(km == 1 && kr == 2, "held_by_other");
+	kani::cover!(km == 0 && kr == 0, "free");
+}
+
+vharness! {
+#[kani::unwind(20)]
+fn c17_q_collections_debug() {
+	let (m, r) = (new_m(0, 1), new_rw(1, 2));
+	let kind: u8 = kani::any();
+	kani::assume(kind < 4);
+	frame2(&m, &r, true, || {
+		let mut sink = Sink(0);
+		match kind {
+			0 => { let c = BoxedLockCollection::try_new((&m, &r)).unwrap(); let _ = core::fmt::write(&mut sink, format_args!("{:?}", c)); }
+			1 => { let t = (&m, &r); let c = RefLockCollection::try_new(&t).unwrap(); let _ = core::fmt::write(&mut sink, format_args!("{:?}", c)); }
+			2 => { let c = unsafe { RetryingLockCollection::new_unchecked((&m, &r)) }; let _ = core::fmt::write(&mut sink, format_args!("{:?}", c)); }
+			_ => { let c = crate::poisonable::Poisonable::new((&m, &r)); let _ = core::fmt::write(&mut sink, format_args!("{:?}", c)); }
+		}
+	});
+	kani::cover!(kind == 0, "boxed");
+	kani::cover!(kind == 1, "ref");
+	kani::cover!(kind == 3, "poisonable");
+}}
+
+vharness! {
+#[kani::unwind(6)]
+fn c17_q_constructors_and_accessors() {
+	// constructors (incl. the duplicate check), child / iter / as_ref / is_poisoned / clear_poison
+	let (m, r) = (new_m(0, 1), new_rw(1, 2));
+	frame2(&m, &r, false, || {
+		let t = (&m, &r);
+		let b = BoxedLockCollection::try_new(t).unwrap();
+		let _ = b.child();
+		let rc = RefLockCollection::try_new(&t).unwrap();
+		let _ = rc.child();
+		let _ = unsafe { RefLockCollection::new_unchecked(&t) };
+		let rt = unsafe { RetryingLockCollection::new_unchecked(t) };
+		let _ = rt.child();
+		let pz = crate::poisonable::Poisonable::new(&m);
+		assert!(!pz.is_poisoned(), "C10_fresh_poisonable_is_not_poisoned");
+		pz.clear_poison();
+		let arr = [&m];
+		let ba = BoxedLockCollection::try_new(arr).unwrap();
+		let n = ba.iter().count() + (&ba).into_iter().count();
+		assert!(n == 2);
+		let ra = RefLockCollection::try_new(&arr).unwrap();
+		let _ = ra.iter().count();
+		let _: &[&M] = ba.as_ref();
+		// rejected construction must not touch the locks either
+		assert!(BoxedLockCollection::try_new((&m, &m)).is_none(), "C07_boxed_try_new_rejects_exactly_the_duplicates");
+	});
+}}
+
+vharness_hashset! {
+#[kani::unwind(6)]
+fn c17_q_retry_try_new_touches_nothing() {
+	let (m, r) = (new_m(0, 1), new_rw(1, 2));
+	frame2(&m, &r, false, || {
+		assert!(RetryingLockCollection::try_new((&m, &r)).is_some(), "C07_retry_try_new_accepts_duplicate_free_input");
+		assert!(RetryingLockCollection::try_new((&m, &r, &m)).is_none(), "C07_retry_try_new_rejects_exactly_the_duplicates");
+	});
+}}
+
+vharness! {
+#[kani::unwind(6)]
+fn c17_q_owning_operations() {
+	// get_mut / into_inner / into_child / child_mut on structures whose locks are in an arbitrary hold state
+	// (a hold can outlive its guard through mem::forget)
+	let own = (new_m(0, 1), new_rw(1, 2));
+	let (sm, sr) = (mraw(&own.0), rraw(&own.1));
+	let km = any_world_mutex(sm);
+	let kr = any_world_rw(sr);
+	let held = w().held;
+	let kind: u8 = kani::any();
+	kani::assume(kind < 4);
+	match kind {
+		0 => {
+			let mut c = OwnedLockCollection::new(own);
+			let g = c.get_mut();
+			assert!(*g.0 == 1 && *g.1 == 2, "C16_get_mut_returns_values_at_declared_positions");
+			let _ = c.child_mut();
+			let i = c.into_inner();
+			assert!(i == (1, 2), "C16_into_inner_returns_values_at_declared_positions");
+		}
+		1 => {
+			let mut c = RetryingLockCollection::new(own);
+			let _ = c.get_mut();
+			let ch = c.into_child();
+			assert!(mraw(&ch.0).mine.get() == if km == 2 { EXCL } else { NONE }, "C17_into_child_leaves_hold_state_unchanged");
+		}
+		2 => {
+			let c = BoxedLockCollection::new(own);
+			let ch = c.into_child();
+			assert!(mraw(&ch.0).mine.get() == if km == 2 { EXCL } else { NONE }, "C17_into_child_leaves_hold_state_unchanged");
+			assert!(ch.0.into_inner() == 1, "C16_into_inner_returns_the_stored_value");
+		}
+		_ => {
+			let mut p = crate::poisonable::Poisonable::new(own.0);
+			let _ = p.get_mut();
+			let _ = p.child_mut();
+			let ch = p.into_child().ok().unwrap();
+			assert!(mraw(&ch).mine.get() == if km == 2 { EXCL } else { NONE }, "C17_into_child_leaves_hold_state_unchanged");
+		}
+	}
+	assert!(!w().blocking_issued, "C17_operation_never_waits");
+	assert!(w().ops == 0, "C17_operation_issues_no_raw_lock_operation");
+	assert!(w().held == held, "C17_operation_leaves_hold_count_unchanged");
+	kani::cover!(kind == 0 && km == 2, "owned_held_by_caller");
+	kani::cover!(kind == 2 && kr == 2, "boxed_held_by_other");
+	kani::cover!(kind == 3, "poisonable");
+}}
+
+vharness! {
+#[kani::unwind(6)]
+fn c17_q_guard_debug_and_display() {
+	// formatting a guard (the caller holds the lock) touches no lock
+	let m = new_m(0, 5);
+	let r = new_rw(1, 6);
+	let key = ThreadKey::get().unwrap();
+	let c = BoxedLockCollection::try_new((&m, &r)).unwrap();
+	let g = c.lock(key);
+	let ops = w().ops;
+	let mut sink = Sink(0);
+	let _ = core::fmt::write(&mut sink, format_args!("{:?}", g));
+	// the collection and its members can be formatted while the caller holds them
+	let _ = core::fmt::write(&mut sink, format_args!("{:?}{:?}", m, r));
+	assert!(!w().blocking_issued || ops > 0, "C17_debug_never_waits");
+	assert!(mraw(&m).mine.get() == EXCL && rraw(&r).mine.get() == EXCL, "C17_debug_leaves_hold_state_unchanged");
+	assert!(w().held == 2, "C17_debug_leaves_hold_count_unchanged");
+	drop(g);
+	assert!(mraw(&m).balanced_and_free() && rraw(&r).balanced_and_free(), "C05_every_hold_released_once_in_its_mode");
+	let key = ThreadKey::get().unwrap();
+	let g = m.lock(key);
+	w().blocking_issued = false;
+	let _ = core::fmt::write(&mut sink, format_args!("{:?} {}", g, g));
+	assert!(!w().blocking_issued && mraw(&m).mine.get() == EXCL, "C17_guard_debug_touches_no_lock");
+	drop(g);
+	kani::cover!(true, "end");
 }}
